@@ -206,10 +206,57 @@ def relevel_case(ctx, idx, rng):
         env.VClock.uninstall()
 
 
+def lease_boundary_case(ctx, idx, rng):
+    """Directed: a quiescent cell of 1-3 up servers at a fractional time; a probe with a lease that fits one of them with
+    less than a second to spare (now + lease < reboot time by 0.2-0.9 s, far more than the clock moves during the cycle):
+    that server has the required lifetime, room and head-room, so the probe is placed."""
+    from treadmill import scheduler as sch
+    sch.DIMENSION_COUNT = 3
+    clock = env.VClock(base=1700000000.0 + rng.choice([0.25, 0.5, 0.75, 0.9]), tick=1e-5)
+    clock.install()
+    try:
+        cell = sch.Cell('cell')
+        rack = sch.Bucket('rack:r0', traits=0)
+        rack.level = 'rack'
+        cell.add_node(rack)
+        lease = rng.choice([60, 3600, 86400])
+        spare = rng.choice([0.2, 0.4, 0.6, 0.9])
+        n = rng.randint(1, 3)
+        fit = rng.randrange(n)
+        for i in range(n):
+            vu = clock.peek() + lease + (spare if i == fit else -rng.choice([1, 30, lease / 2.0]))
+            rack.add_node(sch.Server('s%d' % i, [10, 10, 10], traits=0, valid_until=vu))
+        alloc = cell.partitions[None].allocation
+        cell.schedule()
+        probe_ = sch.Application('foo.app#%010d' % 1, 50, [rng.randint(0, 3) for _ in range(3)], 'foo.app', lease=lease)
+        cell.add_app(alloc, probe_)
+        t0 = clock.peek()
+        cell.schedule()
+        moved = clock.peek() - t0
+        ctx.count('probe_with_lease_ending_less_than_a_second_before_the_reboot')
+        if moved >= spare / 2:
+            ctx.count('lease_boundary_clock_moved_too_far_discarded')
+            return
+        ctx.count('probe_fits')
+        if probe_.server is None:
+            ctx.violation('fits-but-left-pending:lifetime-within-a-second',
+                          'at t=%.3f a probe with lease %ss was left pending although s%d is up, empty and reboots %.1fs after '
+                          'the lease ends (the cycle moved the clock by %.4fs)' % (t0, lease, fit, spare, moved),
+                          case=dict(ops=[('directed-lease-boundary', n, lease, spare, fit)]))
+        else:
+            ctx.count('probe_fits_placed')
+        ctx.done(case_desc=('lease-boundary-directed', n, lease, spare, t0 % 1), nontrivial=True)
+    finally:
+        env.VClock.uninstall()
+
+
 def run(ctx):
     for idx, rng in ctx.cases():
         if idx % 40 == 1:
             relevel_case(ctx, idx, rng)
+            continue
+        if idx % 40 == 2:
+            lease_boundary_case(ctx, idx, rng)
             continue
         if idx % 4 == 3:
             master_case(ctx, idx, rng)
